@@ -43,7 +43,7 @@ LEAN_RULES = {
     "funsor.cnf.normalize_trivial": ["contractionTrivial"],
     "funsor.cnf.normalize_contraction_generic_tuple": [
         "contractionNoVars", "contractionSingleTerm", "contractionTrivial", "contractionDropUnits",
-        "contractionFlattenBin", "contractionFlattenRed"],
+        "contractionFlattenBin", "contractionFlattenRed", "contractionFuseSameRed"],
     "funsor.terms.eager_subs_subs": ["subsFuse"],
     "funsor.terms.eager_binary_number_number": ["numberBinary"],
     "funsor.terms.eager_unary": ["numberUnary"],
@@ -62,8 +62,25 @@ RTOL = 1e-9
 # ---------------------------------------------------------------------------------------------
 
 
+def tstr(t):
+    """str() of a term; funsor's own __str__ asserts on some legal terms (Reduce over no variable)."""
+    try:
+        return str(t)
+    except Exception:
+        try:
+            return f"{type(t).__name__}(" + ", ".join(tstr(a) for a in getattr(t, "_ast_values", ())) + ")"
+        except Exception:
+            return f"<{type(t).__name__}>"
+
+
 def _tname(t):
-    return getattr(t, "__name__", None) or str(t)
+    import re as _re
+    r = repr(t)
+    r = _re.sub(r"<class '([^']*)'>", lambda m: m.group(1).split(".")[-1], r)
+    r = r.replace("typing_wrap[", "[").replace("typing.", "").replace("multipledispatch.variadic.", "")
+    if r.startswith("[") and r.endswith("]") and r.count("[") == 1:
+        r = r[1:-1]
+    return r
 
 
 def registry_entries():
@@ -88,6 +105,8 @@ def registry_entries():
                     src, line = "?", 0
                 k = (iname, key.__name__, q)
                 ent = by.setdefault(k, {"sigs": [], "src": f"{src}:{line}"})
+                if f":{line}" not in ent["src"]:
+                    ent["src"] += f",{line}"       # distinct functions sharing a qualified name
                 ent["sigs"].append("<" + ", ".join(_tname(s) for s in sig) + ">")
     out = []
     for (iname, cls, q), ent in sorted(by.items()):
@@ -185,7 +204,7 @@ def sp_tensor(rng, ctx, names, kind):
 def gen_sumproduct(rng, sr):
     """Nested sums of products over one semiring, as a gen_terms recipe."""
     s_op, p_op, kind = SEMIRINGS[sr]
-    names = ["a", "b", "c", "d", "e"][: rng.choice([2, 3, 3, 4, 5])]
+    names = ["a", "b", "c", "d", "e"][: rng.choice([2, 3, 3, 4, 4, 5])]
     ctx = OrderedDict((n, rng.choice([1, 2, 2, 3])) for n in names)
 
     def leaf():
@@ -202,7 +221,7 @@ def gen_sumproduct(rng, sr):
             return leaf()
         c = rng.random()
         if c < 0.5:
-            k = rng.choice([2, 2, 3, 4])
+            k = rng.choice([2, 2, 2, 3])
             parts = [expr(depth - 1) for _ in range(k)]
             r, free = parts[0]
             for q, fq in parts[1:]:
@@ -222,7 +241,7 @@ def gen_sumproduct(rng, sr):
             rv = [rng.choice(sorted(fa))]
         return ("reduce", s_op, a, tuple(rv), tuple((n, ctx[n]) for n in absent)), fa - set(rv)
 
-    r, free = expr(rng.choice([2, 3, 3, 4]))
+    r, free = expr(rng.choice([2, 2, 3, 3, 4]))
     if free and rng.random() < 0.7:
         rv = [n for n in sorted(free) if rng.random() < 0.7] or [sorted(free)[0]]
         r = ("reduce", s_op, r, tuple(rv), ())
@@ -233,6 +252,7 @@ MODES = ["eager", "lazy", "reflect>eager", "lazy>eager", "reflect>normalize", "r
          "reflect>optimizer", "lazy>optimizer", "reflect>sequential", "reflect>moment_matching"]
 
 _INTERP = {"eager": FI.eager, "lazy": FI.lazy, "reflect": FI.reflect, "normalize": FI.normalize,
+           "optimizer": None,
            "sequential": FI.sequential, "moment_matching": FI.moment_matching}
 
 
@@ -289,11 +309,27 @@ def oracle_check(refl, res, points):
     return "same", None
 
 
+def wire_of(t):
+    """ser.to_wire extended to the Pseudo reflected terms of c02_rec."""
+    if isinstance(t, R.Pseudo):
+        if t.kind == "reduce":
+            n = ser.opname(t.op)
+            if n not in ser.ASSOC:
+                raise ser.Unsupported(f"reduce op {n}")
+            return ["reduce", n, ser.to_wire(t.arg), ser.vars_wire(t.reduced_vars)]
+        r, b = ser.opname(t.red_op), ser.opname(t.bin_op)
+        if r not in ser.ASSOC or b not in ser.ASSOC:
+            raise ser.Unsupported(f"contraction ops {r},{b}")
+        return ["contraction", r, b, ser.vars_wire(t.reduced_vars)] + [ser.to_wire(x) for x in t.terms]
+    return ser.to_wire(t)
+
+
 def eval_cost(t, cap=10 ** 7):
     """Rough number of leaf evaluations of the brute-force value of `t` at one point."""
     def go(x):
-        c = 1
-        for ch in R.subfunsors(x):
+        chs = R.subfunsors(x)
+        c = 1 + len(chs) * len(chs)     # the spec's product is a right-nested fold re-evaluated per level
+        for ch in chs:
             c += go(ch)
             if c > cap:
                 return cap
@@ -305,7 +341,65 @@ def eval_cost(t, cap=10 ** 7):
                 except Exception:
                     pass
         return min(c, cap)
-    return go(t) if isinstance(t, Funsor) else 1
+    return go(t) if isinstance(t, (Funsor, R.Pseudo)) else 1
+
+
+def carrier_violation(*terms):
+    """The property is stated within the carrier on which the semiring a rule relies on is declared:
+    non-negative data where max/min is paired with mul, booleans for or/and.  Returns a label when the
+    terms of a firing pair such ops outside that carrier (the firing is then counted, not decided)."""
+    opnames = set()
+    neg = False
+    nonbool = False
+    stack = list(terms)
+    seen = set()
+    while stack:
+        x = stack.pop()
+        if id(x) in seen:
+            continue
+        seen.add(id(x))
+        if isinstance(x, (Tensor, Number)):
+            a = np.asarray(x.data)
+            if a.dtype.kind in "fi":
+                with np.errstate(invalid="ignore"):
+                    if np.any(a < 0) or np.any(np.isnan(a.astype(np.float64))):
+                        neg = True
+                    if np.any((a != 0) & (a != 1)):
+                        nonbool = True
+            continue
+        for attr in ("op", "red_op", "bin_op"):
+            o = getattr(x, attr, None)
+            if o is not None:
+                opnames.add(R.ser_opname(o))
+        stack.extend(R.subfunsors(x))
+    if "mul" in opnames and (opnames & {"max", "min"}):
+        if neg or (opnames - {"add", "mul", "max", "min", "null", "pow"}):
+            return "(max|min,mul) outside non-negative data"
+    if opnames & {"and", "or"}:
+        if nonbool or (opnames - {"and", "or", "null", "xor", "eq", "ne"}):
+            return "(or,and) outside booleans"
+    return None
+
+
+def exact_data(t, _seen=None):
+    """All numeric leaves of `t` are small dyadic rationals (so float64 arithmetic on them is exact for the
+    few operations of one rewrite and the Lean rational semantics agrees bit for bit)."""
+    stack = [t]
+    seen = set()
+    while stack:
+        x = stack.pop()
+        if id(x) in seen:
+            continue
+        seen.add(id(x))
+        if isinstance(x, (Tensor, Number)):
+            a = np.asarray(x.data)
+            if a.dtype.kind == "f":
+                fin = a[np.isfinite(a)]
+                if fin.size and (np.any(np.abs(fin) > 2.0 ** 30) or np.any(fin * 1024.0 != np.round(fin * 1024.0))):
+                    return False
+        else:
+            stack.extend(R.subfunsors(x))
+    return True
 
 
 class FiringCheck:
@@ -354,19 +448,19 @@ def bad_firings(recipe, mode, allow_shared=False, rec=None):
             if key in seen:
                 continue
             seen.add(key)
-            if not allow_shared and R.shares_binder(f.args):
+            if not allow_shared and R.bound_name_clash(f.args):
                 continue
             try:
                 with reflect:
                     refl = f.reflected()
             except (AssertionError, ValueError, TypeError, KeyError, NotImplementedError):
                 continue
-            if f.result is refl:
+            if f.result is refl or carrier_violation(refl, f.result):
                 continue
             extra = sorted(set(f.result.inputs) - set(refl.inputs))
             if extra:
                 out.append({"rule": f.rule, "interp": f.interp, "kind": "foreign-input", "extra": extra,
-                            "reflected": str(refl)[:300], "result": str(f.result)[:300]})
+                            "reflected": tstr(refl)[:300], "result": tstr(f.result)[:300]})
                 continue
             pts = R.joint_points(refl.inputs)
             if pts is None:
@@ -374,7 +468,7 @@ def bad_firings(recipe, mode, allow_shared=False, rec=None):
             st, det = oracle_check(refl, f.result, pts)
             if st == "differ":
                 out.append({"rule": f.rule, "interp": f.interp, "kind": "value", "detail": det,
-                            "reflected": str(refl)[:300], "result": str(f.result)[:300]})
+                            "reflected": tstr(refl)[:300], "result": tstr(f.result)[:300]})
         return out
     finally:
         if own:
@@ -424,9 +518,11 @@ class Checker:
             ctx.count("skip:duplicate-firing")
             return
         self.seen.add(key)
-        if R.shares_binder(f.args):
-            ctx.count("skip:shared-binder-args(KF-shared-binder-unfold region)")
-            return
+        if R.bound_name_clash(f.args):
+            # region of the open finding: decided like any other firing, but a mismatch here is attributed to
+            # the finding (dedicated stream), never to the clean stream
+            f.region = True
+            ctx.count("kf-region:firings(a name bound at two binder positions)")
         try:
             with reflect:
                 refl = f.reflected()
@@ -435,6 +531,10 @@ class Checker:
             return
         if f.result is refl:
             ctx.count("identity-rewrite")
+            return
+        cv = carrier_violation(refl, f.result)
+        if cv:
+            ctx.count(f"outside-carrier:{cv}")
             return
         self.fired_nonid[f.rule] += 1
         ctx.count(f"interp:{f.interp}")
@@ -454,10 +554,10 @@ class Checker:
         for _, s in ins:
             npts *= s
         cost = max(eval_cost(refl), eval_cost(f.result))
-        if cost > 40000:
+        if cost > 6000:
             ctx.count("skip:brute-force-too-costly")
             return
-        budget = max(2, min(256, int(40000 / max(cost, 1))))
+        budget = max(2, min(256, int(6000 / max(cost, 1))))
         if npts > budget:
             # enumerate a random subset of the inputs exhaustively, fix the others at 3 random settings
             order = list(ins)
@@ -474,10 +574,14 @@ class Checker:
             ctx.count("input-space:sampled")
         else:
             ctx.count("input-space:exhaustive")
+        if not (exact_data(refl) and exact_data(f.result)):
+            ctx.count("float-data->python-oracle")
+            self.oracle(f, refl)
+            return
         c = FiringCheck()
         c.f, c.refl, c.ins = f, refl, ins
         try:
-            c.wire_refl = ser.to_wire(refl)
+            c.wire_refl = wire_of(refl)
             c.wire_res = ser.to_wire(f.result)
         except ser.Unsupported as e:
             ctx.count("lean-beyond-model->python-oracle")
@@ -521,9 +625,9 @@ class Checker:
         sample = None
         if self.samples < 6 and R.term_size(refl) >= 3:
             self.samples += 1
-            sample = {"interpretation": f.interp, "rule": f.rule, "reflected": str(refl)[:200],
-                      "result": str(f.result)[:200], "decided_by": how}
-        self.ctx.case(sample=sample, nontrivial_key=(f.interp, f.rule, str(refl)[:2000]))
+            sample = {"interpretation": f.interp, "rule": f.rule, "reflected": tstr(refl)[:200],
+                      "result": tstr(f.result)[:200], "decided_by": how}
+        self.ctx.case(sample=sample, nontrivial_key=(f.interp, f.rule, tstr(refl)[:2000]))
 
     def flush(self):
         ctx = self.ctx
@@ -567,7 +671,7 @@ class Checker:
                 st, det = oracle_check(refl, f.result, pts) if pts is not None else ("unsupported", None)
                 if st == "same":
                     ctx.fail("correspondence", "C02.lean-denote-vs-python-oracle",
-                             witness={"rule": f.rule, "reflected": str(refl)[:400], "result": str(f.result)[:400],
+                             witness={"rule": f.rule, "reflected": tstr(refl)[:400], "result": tstr(f.result)[:400],
                                       "lean": detail[:300]})
                 else:
                     self.violation(f, refl, "C02.rewrite-changes-value", expected="denote(reflected term)",
@@ -589,16 +693,25 @@ class Checker:
                     ctx.count(f"model-rule:{name}:undef")
                 elif a.startswith("ok fired differ"):
                     ctx.fail("correspondence", f"C02.model-rule-{name}-vs-impl",
-                             witness={"rule": f.rule, "lean_rule": name, "reflected": str(refl)[:400],
-                                      "result": str(f.result)[:400], "lean": a[:300]})
+                             witness={"rule": f.rule, "lean_rule": name, "reflected": tstr(refl)[:400],
+                                      "result": tstr(f.result)[:400], "lean": a[:300]})
                 else:
                     ctx.infra_errors.append(f"driver: {a[:200]} for model rule {name}")
 
     def violation(self, f, refl, name, expected=None, got=None, detail=None):
         ctx = self.ctx
+        if f.region:
+            what = (f"{f.interp}:{f.rule} on arguments binding one name at two positions: {tstr(refl)[:200]} "
+                    f"-> {tstr(f.result)[:200]} ({detail})")
+            ctx.count("kf-region:mismatch")
+            ctx.extra.setdefault("kf_region_mismatches", [])
+            if len(ctx.extra["kf_region_mismatches"]) < 5:
+                ctx.extra["kf_region_mismatches"].append(what[:700])
+            if ctx.is_open("KF-shared-binder-unfold"):
+                return
         recipe, mode, stream = self.progs.get(f.prog, (None, None, None))
         witness = {"interpretation": f.interp, "rule": f.rule, "term_class": f.cls.__name__,
-                   "reflected": str(refl)[:600], "result": str(f.result)[:600], "mode": mode, "detail": detail}
+                   "reflected": tstr(refl)[:600], "result": tstr(f.result)[:600], "mode": mode, "detail": detail}
         py = None
         if recipe is not None:
             rule = f.rule
@@ -651,23 +764,23 @@ def shared_binder_stream(ctx, rec):
     if first is None:
         if final_wrong:
             ctx.fail("correspondence", "C02.shared-binder-final-wrong-but-no-bad-firing",
-                     witness={"final": str(val)})
+                     witness={"final": tstr(val)})
         else:
             ctx.known("KF-shared-binder-unfold", reproduced=False)
         return
     fr, refl, det = first
     # fingerprint: an unfold/normalize Contraction rule fired on operands that share a binder
-    fp = (fr.cls.__name__ == "Contraction" and R.shares_binder(fr.args)
+    fp = (fr.cls.__name__ == "Contraction" and R.bound_name_clash(fr.args)
           and fr.rule in ("funsor.optimizer.unfold_contraction_generic_tuple",
                           "funsor.cnf.normalize_contraction_generic_tuple"))
     what = (f"first bad firing: {fr.interp}:{fr.rule} on operands sharing a mangled binder; "
             f"reflected value {det['reflected']} vs result {det['result']}; final {getattr(val, 'data', val)} (expected 36)")
-    ctx.extra["kf_shared_binder"] = {"rule": fr.rule, "reflected": str(refl)[:300], "result": str(fr.result)[:300],
+    ctx.extra["kf_shared_binder"] = {"rule": fr.rule, "reflected": tstr(refl)[:300], "result": tstr(fr.result)[:300],
                                      "detail": det, "fingerprint_ok": fp}
     if fp and ctx.known("KF-shared-binder-unfold", reproduced=True, what=what):
         return
-    ctx.fail("input", "C02.rewrite-changes-value", witness={"rule": fr.rule, "reflected": str(refl)[:400],
-                                                            "result": str(fr.result)[:400], "detail": det},
+    ctx.fail("input", "C02.rewrite-changes-value", witness={"rule": fr.rule, "reflected": tstr(refl)[:400],
+                                                            "result": tstr(fr.result)[:400], "detail": det},
              expected=str(det["reflected"]), got=str(det["result"]),
              python=("import numpy as np\nfrom collections import OrderedDict\nimport funsor, funsor.ops as ops\n"
                      "from funsor.domains import Bint\nfrom funsor.tensor import Tensor\n"
@@ -695,7 +808,9 @@ def battery(ctx, chk, n_recipes, n_sp, focus=None):
         recipe, free = gen_terms.gen_expr(rng, gen_ctx(rng), depth, "real")
         chk.add_program(recipe, "eager")
         mode = rng.choice(MODES[1:])
-        chk.add_program(recipe, mode)
+        st, _ = chk.add_program(recipe, mode)
+        if st == "declined" and mode.startswith("reflect>"):
+            chk.add_program(recipe, "lazy>" + mode.split(">")[1])   # reflect cannot build Reduce over absent vars
         ctx.count("programs:recipe")
     for _ in range(n_sp):
         sr = rng.choice(list(SEMIRINGS))
@@ -703,7 +818,9 @@ def battery(ctx, chk, n_recipes, n_sp, focus=None):
         ctx.count(f"semiring:{sr}")
         for mode in rng.sample(["reflect>eager", "reflect>normalize", "reflect>optimizer", "lazy>optimizer",
                                 "lazy>eager", "reflect>lazy", "eager", "reflect>sequential"], 3):
-            chk.add_program(recipe, mode)
+            st, _ = chk.add_program(recipe, mode)
+            if st == "declined" and mode.startswith("reflect>"):
+                chk.add_program(recipe, "lazy>" + mode.split(">")[1])
         ctx.count("programs:sum-product")
     chk.flush()
 
